@@ -47,6 +47,7 @@ type c16Plan struct {
 	Pauses    int    `json:"pauses"`                // fault none: number of pauses while the response is being written
 	Early     bool   `json:"early_hints,omitempty"` // fault none: the backend sends 103 Early Hints before its response
 	Behind    string `json:"behind,omitempty"`      // the forwarder sits behind another oxy middleware: "" | breaker | rebalancer
+	HeadFirst bool   `json:"head_first,omitempty"`  // fault none, chunked: the backend sends its head and waits until the client has it
 }
 
 type c16Backend struct {
@@ -56,6 +57,9 @@ type c16Backend struct {
 	body []byte
 	head []byte
 	wg   sync.WaitGroup
+	// head-first streaming (server-sent events, long polling): signalled by the client once it holds the response head
+	headSeen    chan struct{}
+	headDelayed atomic.Bool
 }
 
 func (b *c16Backend) wire() []byte {
@@ -171,6 +175,15 @@ func (b *c16Backend) serve() {
 			if p.Early {
 				_, _ = conn.Write([]byte("HTTP/1.1 103 Early Hints\r\nLink: </style.css>; rel=preload\r\n\r\n"))
 			}
+			if p.HeadFirst {
+				_, _ = conn.Write(b.head)
+				full = full[len(b.head):]
+				select {
+				case <-b.headSeen:
+				case <-time.After(20 * time.Second):
+					b.headDelayed.Store(true)
+				}
+			}
 			if p.Pauses > 0 {
 				// flush pattern: the response is written in pieces with pauses in between
 				step := max(1, len(full)/(p.Pauses+1))
@@ -192,7 +205,7 @@ func newC16Backend(r *rand.Rand, p c16Plan, seed uint64) (*c16Backend, error) {
 	if err != nil {
 		return nil, err
 	}
-	b := &c16Backend{l: l, plan: p}
+	b := &c16Backend{l: l, plan: p, headSeen: make(chan struct{})}
 	b.body = detBody(p.BodyLen, seed)
 	if p.Status == 204 || p.Status == 304 {
 		b.body = nil
@@ -405,6 +418,15 @@ func c16Relay(c *Ctx) {
 		if p.Fault == "none" && r.IntN(4) == 0 {
 			p.Early = true
 		}
+		if p.Fault == "none" && p.Chunked && p.Status != 204 && p.Status != 304 && r.IntN(3) == 0 {
+			p.HeadFirst = true
+			if p.BodyLen == 0 {
+				p.BodyLen = 1 + r.IntN(2000)
+			}
+		}
+		if r.IntN(12) == 0 && p.Fault == "none" {
+			p.Status = pick(r, []int{600, 612, 799, 999}) // unusual but legal: net/http accepts every three-digit status
+		}
 		if (p.Fault == "none" || p.Fault == "refuse" || p.Fault == "close-after-request") && r.IntN(3) == 0 {
 			p.Behind = pick(r, []string{"breaker", "rebalancer"})
 		}
@@ -476,6 +498,9 @@ func c16Relay(c *Ctx) {
 				return
 			}
 			defer resp.Body.Close()
+			if p.HeadFirst {
+				close(back.headSeen) // the client holds the response head
+			}
 			if p.Fault == "cancel-mid-body" {
 				buf := make([]byte, 1000)
 				_, _ = io.ReadFull(resp.Body, buf)
@@ -530,6 +555,13 @@ func c16Relay(c *Ctx) {
 			if status != p.Status {
 				c.Violation("relay/status", sfmt("client saw status %d, backend sent %d", status, p.Status), p)
 				return
+			}
+			if p.HeadFirst {
+				c.Count("head_first_streams", 1)
+				if back.headDelayed.Load() {
+					c.Violation("relay/head-delayed", sfmt("streamed (chunked) response: the backend sent its response head and waited for the client to have it before sending the body; the head did not reach the client within 20s (behind=%q)", p.Behind), p)
+					return
+				}
 			}
 			want := back.body
 			if !bytes.Equal(cr.body, want) {
